@@ -385,7 +385,7 @@ def election_scenario(rng, with_fork=True, bpcount_change=True):
             sid = new_state(count)
         tip = mk(tip, sid)
         if k % 100 in (99, 0, 1) or rng.random() < 0.02:
-            ops.append(["S", 0])
+            ops.append(["R", 0] if rng.random() < 0.3 else ["S", 0])
         elif rng.random() < 0.01:
             ops.append(["R", 0])
         if fork_at is not None and k == fork_when and fork_tip is None:
@@ -521,10 +521,73 @@ def exhaustive_linear(n, length, restart=True):
     return out
 
 
+def edge_confirms(rng, n, length):
+    """Linear chain whose Confirms values sit on the edges: 0, 1, the honest value and its
+    neighbours, the block number and its neighbours, confirmsRequired-1..+1, and the uint64
+    values a wrapped `no - lpbNo` would give (2^64 - k)."""
+    t = Tree()
+    tip = 0
+    cr = 2 * n // 3 + 1
+    for i in range(length):
+        no = i + 1
+        bp = rng.randrange(n)
+        honest = max(0, no - t.lpb.get(bp, 0))
+        conf = rng.choice([0, 1, honest, honest + 1, max(0, honest - 1), no, no + 1, max(0, no - 1), cr - 1, cr, cr + 1,
+                           (1 << 64) - 1, (1 << 64) - 2, (1 << 64) - rng.randrange(1, no + 3), 1 << 63])
+        tip = t.mk(tip, bp, conf)
+        t.ops.append(["D", 0, tip])
+        if rng.random() < 0.3:
+            t.ops.append(["S", 0])
+    return {"n": n, "nodes": 1, "self": [rng.randrange(-1, n)], "ops": t.ops}
+
+
+def reorg_orderings(n, variant):
+    """Three-step orderings around two competing branches: A = 1..4; B forks at 2 and wins with
+    3 blocks; A is then extended and wins back; B is extended again.  [variant] chooses where
+    real restarts ("R") happen (bit k set: restart after step k) and the producer pattern."""
+    t = Tree()
+
+    def seq(parent, count, off):
+        out = []
+        for k in range(count):
+            parent = t.mk(parent, (blocks_no(parent) + off) % n)
+            t.ops.append(["D", 0, parent])
+            out.append(parent)
+        return out
+
+    def blocks_no(i):
+        return t.blocks[i][1]
+    step = 0
+
+    def maybe_restart():
+        nonlocal step
+        if variant >> step & 1:
+            t.ops.append(["R", 0])
+        else:
+            t.ops.append(["S", 0])
+        step += 1
+    a = seq(0, 4, 0)
+    maybe_restart()
+    b = seq(a[1], 3, 1)          # heights 3,4,5: reorg at the last
+    maybe_restart()
+    a2 = seq(a[3], 2, 0)         # heights 5,6: reorg back at the last
+    maybe_restart()
+    b2 = seq(b[-1], 2, 1)        # heights 6,7: reorg again (or veto if the LIB moved)
+    maybe_restart()
+    seq(b2[-1] if True else a2[-1], 2, 0)
+    return {"n": n, "nodes": 1, "self": [0], "ops": t.ops}
+
+
 def generate(rng, quick):
     sc = []
+    for n in (1, 2, 3, 4, 5, 6):                 # n mod 3 = 0, 1, 2 and the small counts
+        for _ in range(1 if quick else 8):
+            sc.append(edge_confirms(rng, n, rng.randrange(8, 25)))
+    for n in (1, 2, 3, 4):
+        for variant in (range(0, 16, 5) if quick else range(16)):
+            sc.append(reorg_orderings(n, variant))
     if quick:
-        sc += exhaustive_linear(2, 5)
+        sc += exhaustive_linear(1, 4) + exhaustive_linear(2, 5) + exhaustive_linear(3, 4)
     else:
         sc += exhaustive_linear(2, 9) + exhaustive_linear(3, 7) + exhaustive_linear(4, 5)
     # exhaustive-ish small family: round robin for every producer count, restart after every block
